@@ -720,7 +720,7 @@ def creation_argsets(name):
     if name in _LIKE:
         out = []
         for pn in _protos():
-            for shp in (None, (4,), 2):
+            for shp in (None, (4,), 2, (), 0, [], (0,), (2, 0)):  # incl. the falsy overrides: 0-d and empty results
                 extra = (1.5,) if name == "full_like" else ()
                 out.append(((pn,) + extra, {} if shp is None else {"shape": shp}, f"proto={pn},shape={shp}"))
             if name == "full_like":
